@@ -3,10 +3,16 @@
 
   Theorems about the byte-level model of mqtt_unpack_fixed_header / mqtt_unpack_publish_response:
   every PUBLISH that is unpacked has its topic and payload inside the bytes that were received,
-  for every byte string.  Delivery under segmentation/coalescing is checked on the real client
-  (supla_esp_mqtt_conn_recv_cb + MQTT-C) by tools/props/c16.py.
+  for every byte string.  Second half (C16.3 ..): the receive loop of one connection
+  (supla_esp_mqtt_conn_recv_cb handing segments over in parts, __mqtt_recv taking complete packets out of the
+  buffer; Model/MqttRecv): for every list of segments, timer syncs and outside errors the packets handed to
+  the handler are exactly the successive packets of the accepted byte stream, in order, at most once; the
+  result does not depend on the segmentation; a stream of complete packets that fit the buffer is delivered
+  completely; a malformed packet is an error and nothing behind it is handed over.
 -/
 import SuplaVerif.Model.Mqtt
+import SuplaVerif.Lemmas.MqttParse
+import SuplaVerif.Lemmas.MqttLive
 
 namespace SuplaVerif.C16
 open Bytes
@@ -95,5 +101,156 @@ example : unpackResponse [0x30, 0x0a, 0, 3, 0x61, 0x2f, 0x62, 0x68, 0x65, 0x6c, 
     .publish { qos := 0, dup := 0, retain := 0, pid := 0, topicOff := 4, topicLen := 3,
                payloadOff := 7, payloadLen := 5, consumed := 12 } := by decide
 example : unpackResponse [0x30, 0x05, 0, 0xff, 0x61, 0x2f, 0x62] = .err .malformed := by decide
+
+/-! ### the receive loop: any segmentation -/
+
+open MqttRecv
+
+/-- **C16.3 (genuine, in order, at most once)** after any history of segments (of any size, also larger than
+    the free space of the receive buffer), timer syncs and errors raised elsewhere, with any handler: the
+    packets taken out of the buffer are the successive packets at the start of the accepted byte stream `A`,
+    `A` is a prefix of the bytes the broker sent, and what is not yet handled is still in the buffer
+    (nothing lost, nothing duplicated, nothing invented). -/
+theorem c16_genuine (hok : List Bytes → Bytes → Bool) (cap : Nat) (es : List REv) :
+    ∃ A, A <+: offered es ∧ A = (run parse hok cap {} es).hs.flatten ++ (run parse hok cap {} es).buf ∧
+      Chain parse (run parse hok cap {} es).hs A ∧ (run parse hok cap {} es).buf.length ≤ cap := by
+  obtain ⟨acc, a1, a2, _, _, _⟩ := run_inv parse_ok hok cap es {} [] (inv_init parse_ok cap)
+  exact ⟨acc, a1, by simpa using a2.stream, by simpa using a2.chain, a2.bound⟩
+
+/-- **C16.4 (the segmentation does not matter)** two histories that offer the same byte stream and both end
+    without an error have handed exactly the same packets to the handler and keep the same incomplete tail:
+    cutting the stream differently, coalescing packets or interleaving timer syncs changes nothing. -/
+theorem c16_segmentation_independent (hok : List Bytes → Bytes → Bool) (cap : Nat) (es1 es2 : List REv)
+    (hsame : offered es1 = offered es2)
+    (h1 : (run parse hok cap {} es1).err = false) (h2 : (run parse hok cap {} es2).err = false) :
+    (run parse hok cap {} es1).hs = (run parse hok cap {} es2).hs ∧
+    (run parse hok cap {} es1).buf = (run parse hok cap {} es2).buf := by
+  obtain ⟨a, _, a2, a3, _, _⟩ := run_inv parse_ok hok cap es1 {} [] (inv_init parse_ok cap)
+  obtain ⟨b, _, b2, b3, _, _⟩ := run_inv parse_ok hok cap es2 {} [] (inv_init parse_ok cap)
+  have g1 : (run parse hok cap {} es1).gap = false := by
+    cases hg : (run parse hok cap {} es1).gap
+    · rfl
+    · have := a2.gapErr hg; rw [h1] at this; cases this
+  have g2 : (run parse hok cap {} es2).gap = false := by
+    cases hg : (run parse hok cap {} es2).gap
+    · rfl
+    · have := b2.gapErr hg; rw [h2] at this; cases this
+  have ea := a3 g1
+  have eb := b3 g2
+  have sa := a2.stream
+  have sb := b2.stream
+  have ca := a2.chain
+  have cb := b2.chain
+  rw [ea] at sa ca
+  rw [eb, ← hsame] at sb cb
+  simp only [List.nil_append] at sa sb ca cb
+  exact chain_unique parse_ok _ _ _ _ _ sa sb ca cb (a2.idle h1) (b2.idle h2)
+
+/-- **C16.5 (every well-formed packet is delivered exactly once)** if the broker's stream is a sequence of
+    complete packets each of which fits the receive buffer, the handler accepts them and nothing else raises
+    an error, then — however the stream is cut into TCP segments and wherever timer syncs fall — exactly these
+    packets are handed over, in order, each once, and the buffer ends empty without an error. -/
+theorem c16_delivery (hok : List Bytes → Bytes → Bool) (cap : Nat) (hcap : 0 < cap)
+    (hall : ∀ hs q, hok hs q = true) (ps : List Bytes) (hv : ∀ q ∈ ps, Valid parse cap q)
+    (es : List REv) (hne : NoExt es) (hstream : offered es = ps.flatten) :
+    (run parse hok cap {} es).hs = ps ∧ (run parse hok cap {} es).err = false ∧
+    (run parse hok cap {} es).buf = [] := by
+  obtain ⟨v1, v2, qs', v3, v4⟩ := run_valid parse_ok hok cap hall hcap es hne {} [] ps (inv_init parse_ok cap)
+    rfl rfl hv (by simpa using hstream)
+  obtain ⟨a, _, a2, a3, _, _⟩ := run_inv parse_ok hok cap es {} [] (inv_init parse_ok cap)
+  have ea := a3 v2
+  have hneed := a2.idle v1
+  have hbuf : (run parse hok cap {} es).buf = [] := by
+    cases qs' with
+    | nil => simpa using v4
+    | cons q qs =>
+      exfalso
+      have hq := (v3 q (by simp)).1
+      rw [v4, List.flatten_cons, parse_ok.pktStable q _ _ hq] at hneed
+      cases hneed
+  refine ⟨?_, v1, hbuf⟩
+  have sa := a2.stream
+  have ca := a2.chain
+  rw [ea] at sa ca
+  simp only [List.nil_append] at sa ca
+  have cp : Chain parse ps (ps.flatten ++ []) := chain_of_valid parse_ok ps (fun q h => (hv q h).1) []
+  rw [← hstream] at cp
+  simp only [List.append_nil] at cp
+  have := chain_unique parse_ok _ ps (offered es) _ [] sa (by rw [hstream]; simp) ca cp hneed (by decide)
+  exact this.1
+
+/-- **C16.6 (a malformed packet is an error and blocks what follows)** when the bytes at the start of the
+    buffer are a protocol violation the sync reports an error, hands nothing over and keeps the buffer: no
+    later segment or sync can get a packet past it (by stability, `parse (buf ++ more) = bad`). -/
+theorem c16_malformed_blocks (hok : List Bytes → Bytes → Bool) (cap : Nat) (hs : List Bytes) (buf more : Bytes)
+    (hbad : parse buf = .bad) :
+    drain parse hok cap hs (buf ++ more) = (hs, buf ++ more, true) := by
+  rw [drain, parse_ok.badStable buf more hbad]
+
+/-- **C16.7 (what a handled PUBLISH hands to the callback)** a handled packet of control type 3 is unpacked by
+    `unpackResponse` (C16.1) to a PUBLISH whose topic and payload are sub-ranges of exactly that packet and
+    whose payload ends with it: the callback never sees bytes of a neighbouring packet. -/
+theorem c16_handled_publish_in_packet (q : Bytes) (n : Nat) (hq : parse q = .pkt n)
+    (hty : (q.getD 0 0).toNat / 16 = 3) :
+    ∃ p, unpackResponse q = .publish p ∧ p.consumed = n ∧ p.topicOff + p.topicLen ≤ n ∧
+      p.payloadOff + p.payloadLen = n := by
+  unfold parse at hq
+  unfold unpackResponse
+  by_cases h2 : q.length < 2
+  · rw [if_pos h2] at hq; cases hq
+  · rw [if_neg h2] at hq
+    rw [if_neg (by omega : ¬ q.length = 0)]
+    simp only
+    rw [if_neg (by omega : ¬ q.length = 1)]
+    cases hr : remLen q 5 1 0 0 with
+    | none => rw [hr] at hq; cases hq
+    | some o =>
+      cases o with
+      | none => rw [hr] at hq; cases hq
+      | some rh =>
+        obtain ⟨rem, hdr⟩ := rh
+        rw [hr] at hq
+        simp only at hq ⊢
+        unfold parseBody at hq
+        rw [hty] at hq ⊢
+        simp only [show ¬ ((3 : Nat) = 0 ∨ (3 : Nat) = 15) by decide, if_false, show ¬ ((3 : Nat) ≠ 3 ∧ _) from fun h => h.1 rfl,
+          show ¬ (3 : Nat) = 2 by decide, if_true] at hq
+        rw [if_neg (by decide : ¬ ((3 : Nat) = 0 ∨ (3 : Nat) = 15)), if_neg (by decide : ¬ (3 : Nat) ≠ 3)]
+        by_cases h4 : q.length - hdr < rem
+        · rw [if_pos h4] at hq; cases hq
+        · rw [if_neg h4] at hq ⊢
+          by_cases h5 : rem < 4
+          · rw [if_pos h5] at hq; cases hq
+          · rw [if_neg h5] at hq
+            by_cases h6 : be16 (q.drop hdr) + 2 + pidLen ((q.getD 0 0).toNat % 16 / 2 % 4) > rem
+            · rw [if_pos h6] at hq; cases hq
+            · rw [if_neg h6] at hq
+              injection hq with hq
+              unfold unpackPublish
+              rw [if_neg h5, if_neg h6]
+              refine ⟨_, rfl, hq, ?_, ?_⟩ <;> simp only <;> omega
+
+/-- non-vacuity of C16.5: CONNACK, a QoS-1 PUBLISH and a PINGRESP in a 16-byte buffer, cut into segments of
+    1, 9, 2 and 8 bytes (the second is larger than the free space and is handed over in parts), with a timer
+    sync in between: the premises of `c16_delivery` hold, so exactly the three packets are handed over -/
+example :
+    let connack : Bytes := [0x20, 2, 0, 0]
+    let pub : Bytes := [0x32, 0x0c, 0, 3, 0x61, 0x2f, 0x62, 0, 7, 0x68, 0x65, 0x6c, 0x6c, 0x6f]
+    let ping : Bytes := [0xd0, 0]
+    let stream := connack ++ pub ++ ping
+    (run parse (fun _ _ => true) 16 {} [.seg (stream.take 1), .seg ((stream.drop 1).take 9), .sync,
+        .seg ((stream.drop 10).take 2), .seg (stream.drop 12)]).hs = [connack, pub, ping] := by
+  intro connack pub ping stream
+  refine (c16_delivery (fun _ _ => true) 16 (by decide) (fun _ _ => rfl) [connack, pub, ping] ?_ _ ?_ ?_).1
+  · intro q hq
+    simp only [List.mem_cons, List.not_mem_nil, or_false] at hq
+    rcases hq with h | h | h <;> subst h <;> exact ⟨by decide, by decide⟩
+  · intro e he
+    simp only [List.mem_cons, List.not_mem_nil, or_false] at he
+    rcases he with h | h | h | h | h <;> subst h <;> intro c <;> cases c
+  · decide
+
+/-- non-vacuity of C16.6: the historic witness (topic length 255 in a 5-byte PUBLISH) blocks the stream -/
+example : parse [0x30, 0x05, 0, 0xff, 0x61, 0x2f, 0x62] = .bad := by decide
 
 end SuplaVerif.C16
